@@ -57,6 +57,26 @@ CHECKS = {
          'Static analysis of the 9 resource managers of the factory table and the base class: node_list is assigned from _get_node_list (unique enumerate index, configured core/GPU vectors) on every path to return and nowhere else; reduction to the requested size, agent/service nodes popped (moved), raising emptiness test passed by every return; registry written after _init_from_scratch (which filters) and the read path does not filter again. Node-file parsing for arbitrary contents is not decided.',
          'Not decided: node file parsing for arbitrary contents.',
          'DESIGN.md section 5 / C18'),
+ 'C11': ('finite-domain path feasibility over the six action constants (admitted => handled), table/backend completeness, branch subsumption, context-table def-use',
+         'Static analysis of the four stagers, the staging helper and the directive expansion: every action admitted by a stager intake filter reaches a staging effect in its handler (decided per action constant); client and agent side together cover all actions; handle_staging_directive runs a same-named facade operation for every accepted action, each facade method delegates to a backend method with an effect; >> and << are tested before > and <, each branch splits at the token it tested; the eight src/tgt context tables feed each schema key from its own task entry with the documented pwd; output stagers skip directives of non-DONE tasks unless stage_on_error. Does not decide file contents or remote transfers.',
+         'Not decided: file contents, remote transfer. Known findings K5 (SAGA backend stubs).',
+         'DESIGN.md section 5 / C11'),
+ 'C14': ('state-table well-formedness, ownership of Pilot._state/_update, abstract interpretation of the final-cause definitions through stop()/finalize, file-name contract with bootstrap_0.sh',
+         'Static analysis of states.py, pilot.py, pilot_manager.py and agent_0.py: the pilot state table is well formed and ordered like the pipeline; Pilot._update is driven only by _update_pilot under current==target or inside the loop over the passed states, unknown pilots return first; every literal assigned to _final_cause survives to finalize (no unconditional overwrite on any path through stop()); finalize maps timeout->DONE, cancel->CANCELED, anything else->FAILED in both the signal file and the final advance; the signal file written is the one bootstrap_0.sh reads, with a FAILED default; every pilot notification of a bulk update is applied.',
+         'Not decided: the bootstrapper shell beyond the file-name contract; delivery timing.',
+         'DESIGN.md section 5 / C14'),
+ 'C16': ('predicate abstraction / exhaustive path enumeration of the forwarder callback over (from_proxy, origin present, origin own, fwd) compared with the specification decision table; wiring table; default flags',
+         'Static: the decision table extracted from the CFG of the pubsub forwarder (12 consistent atom combinations, assignments as kills) equals the specification table - from the proxy publish iff the origin is another side, to the proxy publish iff fwd and origin own/absent, exactly one put of the tagged message; each local channel is wired to its PROXY_ twin in both directions with from_proxy true exactly on the PROXY_ source; agent-side advances default fwd=True, client-side False, cancel requests set fwd. The exactly-once argument for the specification table is by hand (DESIGN R16.1); the check decides that the code is that table.',
+         'Trusted: zmq pubsub delivery. Not decided: message loss/duplication inside zmq.',
+         'DESIGN.md section 5 / C16'),
+ 'C19': ('symbolic run of each alias block, finite evaluation of the mode table, codec inverse pairing, path-sensitive key provenance in the slot converters, producer/consumer key agreement',
+         'Static analysis of TaskDescription/PilotDescription._verify, the serializer, PythonTask and the slot converters: each deprecated-attribute block moves the value to the documented replacement and leaves the old attribute falsy/untouched (idempotent, nothing lost); the mode -> required attribute table is enforced and every description key a raptor dispatcher reads unguarded is defaulted or required for that mode; serialize/deserialize pairs compose inverse primitives in reverse order, encoder keys cover what the decoder reads, no None default is unpacked with * / **; both slot converters carry every Slot key from the same input key on every path. Equality of values after a round trip and pickling of arbitrary callables are not decided.',
+         'Trusted: ru.TypedDict honours _schema/_defaults. Not decided: value equality after round trips.',
+         'DESIGN.md section 5 / C19'),
+ 'C20': ('lock-region coverage of every _resources access, alloc/dealloc symmetry, result-producer/consumer table, AST interpretation of the dispatchers (return code/exception constants per path), save/restore in finally',
+         'Static analysis of the raptor worker and master: every access to the worker resource map is inside `with self._rlock`; marks are guarded by a free test of the same cell and recorded in task[slots], _dealloc frees exactly those; all three result producers feed the queue whose single consumer deallocates before reporting, error and timeout paths report a non-zero code with the exception; Master._result_cb maps exit code 0 to DONE and anything else to FAILED with one hand-on per call; executable tasks are routed to the agent path, everything else to the workers, the scheduler forwards iff raptor_id and not worker and not seen; in the func/eval/exec dispatchers stdio and environment are saved before mutation and restored in finally, success returns (0, no exception), failure a non-zero code and the exception. Process-level races with the timeout path are not decided.',
+         'Not decided: process-level races between _worker_proc and the timeout path.',
+         'DESIGN.md section 5 / C20'),
 }
 PENDING = 'check not built yet in this round (static rules designed in DESIGN.md section 5); not claimed until the checker exists'
 NA = {}
